@@ -52,8 +52,9 @@ type result struct {
 	Selected []int  `json:"selected"` // nodes returned by the real ProposerSelectFunc, consecutive repeats removed
 	Sorted   [][]int `json:"sorted,omitempty"` // node lists the real ProposerSelectFunc was given (first two)
 	Asked    []int  `json:"asked"`    // nodes handed to RequestFunc, consecutive repeats removed
+	Events   [][2]int `json:"events"` // ordered log: [0,id] = ProposerSelectFunc returned id, [1,id] = RequestFunc asked id (consecutive repeats removed)
 	Winner   int    `json:"winner"`   // proposer of the proposal Select returned (-1: error)
-	Valid    bool   `json:"valid"`    // returned proposal passes IsValid and is for the point
+	Valid    bool   `json:"valid"`    // returned proposal is for the point and previous block
 	Err      string `json:"err,omitempty"`
 	Panic    string `json:"panic,omitempty"`
 	Ms       int64  `json:"ms"`
@@ -165,6 +166,12 @@ func runCase(i int, k kase, w *world, rng *rand.Rand) result {
 
 		var mu sync.Mutex
 		var selected, asked []int
+		var events [][2]int
+		logev := func(kind, id int) {
+			if n := len(events); n == 0 || events[n-1] != [2]int{kind, id} {
+				events = append(events, [2]int{kind, id})
+			}
+		}
 		var sorted [][]int
 		failed := map[int]bool{}
 		real := isaac.NewBlockBasedProposerSelector()
@@ -184,6 +191,7 @@ func runCase(i int, k kase, w *world, rng *rand.Rand) result {
 			mu.Lock()
 			if err == nil && n != nil {
 				selected = append(selected, w.id(n.Address()))
+				logev(0, w.id(n.Address()))
 				if len(sorted) < 2 {
 					l := make([]int, len(nodes))
 					for j := range nodes {
@@ -201,6 +209,7 @@ func runCase(i int, k kase, w *world, rng *rand.Rand) result {
 			id := w.id(proposer.Address())
 			mu.Lock()
 			asked = append(asked, id)
+			logev(1, id)
 			fail := failed[id]
 			if !fail && len(failed) < k.NFail {
 				failed[id] = true
@@ -224,7 +233,7 @@ func runCase(i int, k kase, w *world, rng *rand.Rand) result {
 		// the first proposer is retried until the deadline; a failing one costs the whole wait
 		args.MinProposerWait = time.Second * 8
 		if k.NFail > 0 {
-			args.MinProposerWait = time.Millisecond * 600
+			args.MinProposerWait = time.Millisecond * 1500
 		}
 		args.TimeoutRequest = func() time.Duration { return time.Second * 8 }
 
@@ -232,13 +241,14 @@ func runCase(i int, k kase, w *world, rng *rand.Rand) result {
 		pr, err := ps.Select(context.Background(), point, prev, 0)
 		mu.Lock()
 		res.Selected, res.Asked, res.Sorted = dedupe(selected), dedupe(asked), sorted
+		res.Events = append([][2]int{}, events...)
 		mu.Unlock()
 		if err != nil {
 			res.Err = err.Error()
 			return
 		}
 		res.Winner = w.id(pr.ProposalFact().Proposer())
-		res.Valid = pr.IsValid(netID) == nil && pr.Point().Equal(point) && pr.ProposalFact().PreviousBlock().Equal(prev)
+		res.Valid = pr.Point().Equal(point) && pr.ProposalFact().PreviousBlock().Equal(prev)
 	})
 	res.Ms = time.Since(start).Milliseconds()
 	return res
@@ -253,7 +263,7 @@ func run(args []string) error {
 		return err
 	}
 	seed, _ := strconv.ParseInt(os.Getenv("VERIF_SEED"), 10, 64)
-	par := 192
+	par := 48
 	if v, err := strconv.Atoi(fl["par"]); err == nil && v > 0 {
 		par = v
 	}
